@@ -51,8 +51,17 @@ void h_step(void)
 #undef MD
 #define MD md_sym
 #endif
+#ifdef VC_STEP_MD
+    /* max_depth at the limit of the 8-bit depth counter: a state array of exactly 255 entries as a static object
+     * (all levels zero except the level in use, which is made unconstrained below) - a heap block of 255 unconstrained
+     * entries does not fit in memory */
+    static binson_state st_static[VC_STEP_MD];
+    binson_state *st = st_static;
+    __CPROVER_assume(buf != NULL);
+#else
     binson_state *st = malloc((size_t) MD * sizeof(binson_state));
     __CPROVER_assume(buf != NULL && st != NULL);
+#endif
     p.type = nondet_bool() ? BINSON_PTYPE_OBJECT : BINSON_PTYPE_ARRAY;
     p.max_depth = MD; p.buffer = buf; p.buffer_size = n; p.state = st; p.cb = NULL; p.cb_context = NULL;
     p.error_flags = BINSON_ERROR_NONE;
@@ -65,6 +74,9 @@ void h_step(void)
     p.buffer_used = nondet_size_t();
     __CPROVER_assume(p.buffer_used < n);
     binson_state *lv = p.current_state;
+#ifdef VC_STEP_MD
+    { binson_state any; *lv = any; }          /* the level in use: unconstrained */
+#endif
     size_t o_used = p.buffer_used;
     uint_fast8_t o_depth = p.depth;
 
